@@ -687,6 +687,8 @@ PROP = Prop(
             must_hit=["kind:loc", "kind:tx", "kind:gene", "kind:collection", "kind:vc", "parent:chunk", "empty_3p_utr", "cds_no_complete_codon", "window==len",
                       "merged_feature_without_gene_type", "empty_query_result"],
             rule="valid locations, transcripts (+CDS), features, genes, feature collections, annotation collections, variant collections on no parent / chromosome / chunk (incl. chunks that miss or cut the object): every public accessor/method of a registry with in-range and boundary arguments (0, len-1, len, len+1, window == length, zero-length requests, windows at the CDS ends)"),
+        Leg("methods_coverage_guided", check_methods, fuzz_of="methods", n_quick=150, n_thorough=6000, shards_quick=2, shards_thorough=8,
+            rule="coverage-guided: the `methods` leg's strategy driven by atheris/libFuzzer through hypothesis.fuzz_one_input with the `inscripta` package instrumented (fresh empty corpus, budget in runs; same check, clauses and known-finding predicates; failures collected unshrunk)"),
         Leg("parent_mismatch", check_parent_mismatch, enumerate=enum_parent_mismatch, exhaustive=True, shards_quick=8, shards_thorough=8,
             must_hit=["control_accepted"],
             rule="8 ways two parents can differ in exactly one significant aspect (id, id without sequences, sequence type, sequence content, sequence presence, "
